@@ -126,32 +126,54 @@ def audit(theorems, module, log):
     return res
 
 
+def import_cone(modules):
+    """Files of this lake project transitively imported by the given modules (Zrnt.* / Proofs.* / ZModel)."""
+    seen, todo = set(), list(modules)
+    while todo:
+        m = todo.pop()
+        if m in seen:
+            continue
+        path = os.path.join(LEAN, m.replace(".", "/") + ".lean")
+        if not os.path.exists(path):
+            continue
+        seen.add(m)
+        for line in open(path, errors="replace"):
+            mm = re.match(r"\s*(?:public\s+)?import\s+([A-Za-z0-9_.]+)", line)
+            if mm:
+                todo.append(mm.group(1))
+    return [os.path.join(LEAN, m.replace(".", "/") + ".lean") for m in sorted(seen)]
+
+
 def grep_forbidden(paths):
+    """paths: directories (walked) or single .lean files."""
     hits = []
+    files = []
     for root in paths:
+        if os.path.isfile(root):
+            files.append(root); continue
         for dp, _, fns in os.walk(root):
             for fn in fns:
-                if not fn.endswith(".lean"):
-                    continue
-                p = os.path.join(dp, fn)
-                in_block = 0
-                for i, line in enumerate(open(p, errors="replace"), 1):
-                    # strip comments (block comments tracked coarsely, line comments exactly)
-                    s = line
-                    out = ""
-                    j = 0
-                    while j < len(s):
-                        if s.startswith("/-", j):
-                            in_block += 1; j += 2; continue
-                        if s.startswith("-/", j) and in_block:
-                            in_block -= 1; j += 2; continue
-                        if not in_block and s.startswith("--", j):
-                            break
-                        if not in_block:
-                            out += s[j]
-                        j += 1
-                    if FORBIDDEN.search(out):
-                        hits.append(f"{os.path.relpath(p, VERIF)}:{i}: {out.strip()[:120]}")
+                if fn.endswith(".lean"):
+                    files.append(os.path.join(dp, fn))
+    for p in files:
+        in_block = 0
+        for i, line in enumerate(open(p, errors="replace"), 1):
+            # strip comments (block comments tracked coarsely, line comments exactly)
+            s = line
+            out = ""
+            j = 0
+            while j < len(s):
+                if s.startswith("/-", j):
+                    in_block += 1; j += 2; continue
+                if s.startswith("-/", j) and in_block:
+                    in_block -= 1; j += 2; continue
+                if not in_block and s.startswith("--", j):
+                    break
+                if not in_block:
+                    out += s[j]
+                j += 1
+            if FORBIDDEN.search(out):
+                hits.append(f"{os.path.relpath(p, VERIF)}:{i}: {out.strip()[:120]}")
     return hits
 
 
